@@ -1,13 +1,13 @@
 (** C13 model: brush-core/src/escape.rs, the quoting side.
     [quote], [force_quote], [quote_if_needed], [backslash_escape], [single_quote],
-    [double_quote], [ansi_c_quote] over the regenerated tables of gen/EscapeTables.v.
+    [double_quote], [ansi_c_quote] over the regenerated tables of gen/C13EscapeTables.v.
 
     The functions that consult [needs_escaping] take a flag [pos]: whether the code also has the
     position-dependent test [needs_escaping_at] (a leading ~ or #, a ~ after : or =).  The
-    unchanged tree has no such test ([EscapeTables.positional_escaping = false]); the repaired tree
+    unchanged tree has no such test ([C13EscapeTables.positional_escaping = false]); the repaired tree
     has it.  The entry points instantiate [pos] with the regenerated flag, the theorems are
     stated for both values. *)
-From BV Require Import Base.Prelude gen.EscapeTables.
+From BV Require Import Base.Prelude gen.C13EscapeTables.
 Open Scope N_scope.
 
 Definition mem (c : char) (l : list N) : bool := existsb (N.eqb c) l.
